@@ -3,6 +3,10 @@
 import json, subprocess
 ALL = ["C%02d" % i for i in range(1, 21)]
 CHECKS = {
+ "C17": dict(cat="model_checking", tech="explicit-state BFS over view-operation histories on real luminance sources vs a naive pixel-array model; exhaustive enumeration of small bilevel images for the binarisers",
+   text="Ten source kinds (Go image Gray/RGBA/NRGBA/Paletted/custom, RGB ints, planar YUV plain/reversed/offset) x every size 1..6 squared (thorough 1..12 squared) and six large sizes with position-coded pixels: all sequences of crop (in- and out-of-range rectangles, ~12 per state) / invert / rotate of depth <=2/3 over the full menu and <=4/6 over a six-operation sub-menu, replayed on fresh objects, deduplicated; after every step dimensions, every row (nil/short/exact/oversized buffers, rows -1 and height), the matrix and capability flags are compared with index arithmetic on a full copy. Binarisers: every bilevel image with <=12/16 pixels, sizes around the 40-pixel switch with one flipped pixel at every lattice/every position, rendered symbols of 11 writers at scales 1..4: black matrix == (lum==0) or NotFound, black rows == the re-stated one-row model, BinaryBitmap crop/rotate consistent.",
+   note="Trusted: the pixel-array model and the re-stated global-histogram row model in checks/c17. A crop leaving the current view but inside the underlying image may be an error or show the underlying pixels; zero/negative sizes need only 'error or consistent empty view'. Partly transparent pixels have no luminance oracle.",
+   ref="5/C17"),
  "C01": dict(cat="exploration", tech="exhaustive enumeration of boundary payloads x versions x levels x masks and of all short texts x option assignments, round-trip oracle",
    text="QR write->read on the real code: every version x level x five payload families (numeric, alphanumeric, byte ISO-8859-1 over all 256 values, byte UTF-8, Kanji) at capacity, capacity-1 (thorough: -2) with forced masks (quick: rotating mask, all masks on five versions; thorough: all 9 mask settings), capacity+1 refused, the automatic version choice at every boundary, all strings of length <=2 (thorough <=3/4) over a 16-symbol alphabet x deviation-bounded / full products of level, mask, version and charset hints, and the rendered-image path in pure-barcode mode for 10/40 versions x 7 sizes x 4 margins. Capacities and representability come from ref/qr and x/text; the reference reader independently confirms version, level, mask and mode of each symbol.",
    note="Round-trip property: the oracle is read(write(t)) == t on the library itself; ref/qr supplies capacities and confirms the symbol parameters. Charsets other than UTF-8/ISO-8859-1/Shift_JIS are C15's.",
